@@ -566,7 +566,15 @@ class ViewsHooks(Hooks):
 
     def before(self, it, i, ev):
         self.pre = None
+        self.pre_attr = None
         fn = ev['fn']
+        t_ = ev.get('t', {})
+        if fn == 'setattr' and t_.get('edit_of_derived') and t_['edit_of_derived'][1:] in it.store:
+            src_ = it.store[t_['edit_of_derived'][1:]]
+            self.pre_attr = ('derived', src_, it.dig(src_))
+        elif fn == 'setattr' and t_.get('assignment_may_be_refused'):
+            tgt_ = it.resolve(ev['a'][0])
+            self.pre_attr = ('refusable', tgt_, it.dig(tgt_))
         if fn in ('Plane.multiply', 'w*p', 'p*w', 'w*=p'):
             p, w = (it.resolve(ev['a'][0]), it.resolve(ev['a'][1])) if fn not in ('w*p', 'w*=p') else (it.resolve(ev['a'][1]), it.resolve(ev['a'][0]))
             conflict = (p.pixelscale is not None and w.pixelscale is not None and
@@ -578,6 +586,22 @@ class ViewsHooks(Hooks):
         tag = ev.get('t', {})
         L = it.L
         self._taint(it, ev, out)
+        if getattr(self, 'pre_attr', None) is not None:
+            kind_, obj_, d0_ = self.pre_attr
+            if kind_ == 'derived':
+                it.probe('derived_plane_edited')
+                it.fault('attribute_update')
+                if it.dig(obj_) != d0_:
+                    it.violate('C07.meta', {'what': 'derived-plane-shares-state-with-its-source', 'how': tag.get('how', '?')},
+                               'editing a plane obtained by %s changed the plane it was obtained from' % tag.get('how', '?'), i)
+            else:
+                it.probe('assignment_that_may_be_refused')
+                if not out.ok:
+                    it.probe('refused_attribute_assignment')
+                    it.fault('refuse')
+                    if it.dig(obj_) != d0_:
+                        it.violate('C07.meta', {'what': 'refused-assignment-changed-plane', 'attr': ev['a'][1], 'exc': type(out.exc).__name__},
+                                   'the assignment plane.%s = ... was refused (%r) but the plane is not what it was' % (ev['a'][1], out.exc), i)
         if fn.startswith('check.') and ev.get('id') in self.tainted:
             return
         if self.pre is not None:
@@ -725,7 +749,7 @@ class ViewsScenario(OpticsBase):
                    'floor(N/2)+offset on a zero plane; propagation itself is not modelled (C02 is not applicable)',
                    'segment masks are disjoint (Voronoi partitions), as the documentation requires',
                    'NaN/inf accumulators are replaced by loud finite garbage: before + w*intensity is NaN by arithmetic there']
-    must_hit = ['short_lived_wavefronts', 'three_fields_overlap', 'clip:lo0', 'clip:hi0', 'clip:lo1', 'clip:hi1', 'clip:outside', 'scalar_plane',
+    must_hit = ['short_lived_wavefronts', 'derived_plane_edited', 'assignment_that_may_be_refused', 'three_fields_overlap', 'clip:lo0', 'clip:hi0', 'clip:lo1', 'clip:hi1', 'clip:outside', 'scalar_plane',
                 'two_segmented_planes', 'px_conflict', 'default_plane', 'nfields:1', 'nfields:3+', 'disjoint_pair_bridged',
                 'phasor_after_caller_write', 'phasor_after_attribute_update', 'slit_plane', 'plane_reused_at_another_sampling',
                 'views_reread_after_caller_write', 'rescaled_plane', 'px_conflict_tilt_plane', 'px_conflict_scalar_wavefront', 'mask_buffer_refilled']
@@ -837,6 +861,26 @@ class ViewsScenario(OpticsBase):
                 amp_plane = (p, sname) if ('mask' not in kw or rng.random() < 0.5) and cls_ == 'Pupil' else None
                 if k > 1:
                     flags['nseg'] += 1
+                if rng.random() < 0.12 or force.get('derived_edit'):
+                    # a plane derived from this one at the same sampling (rescale by 1, resample to its own pixel scale, copy) is the
+                    # caller's to edit: the plane it came from stays what it was -- and goes on being used below
+                    how_ = rng.choice(['rescale1', 'resample-same', 'copy'])
+                    if how_ == 'rescale1':
+                        q_ = b.E('Plane.rescale', ['@' + p, rng.choice([1, 1.0])], tag='q')
+                    elif how_ == 'resample-same':
+                        q_ = b.E('Plane.resample', ['@' + p, ph['dx']], tag='q')
+                    else:
+                        q_ = b.E('Plane.copy', ['@' + p], tag='q')
+                    what_ = rng.choice(['opd', 'amplitude', 'focal_length'] if cls_ == 'Pupil' else ['opd', 'amplitude'])
+                    b.E('setattr', ['@' + q_, what_, {'opd': 3e-7, 'amplitude': 0.25, 'focal_length': ph['f'] * 3.0}[what_]],
+                        t={'edit_of_derived': '@' + p, 'how': how_}, tag='x')
+                if rng.random() < 0.08 or force.get('bad_assignment'):
+                    # an assignment a plane may well refuse (a complex OPD, an OPD cube), on a private copy that is not used again:
+                    # accepted or refused is lentil's business; a REFUSED assignment leaves the plane as it was
+                    qb_ = b.E('Plane.copy', ['@' + p], tag='q')
+                    bad_ = b.A(rng.choice([{'kind': 'complex', 'shape': sname, 'seed': b.sd()},
+                                           {'kind': 'uniform', 'shape': [2] + list(world['shapes'][sname]), 'lo': 0.0, 'hi': 1e-7, 'seed': b.sd()}]), 'o')
+                    b.E('setattr', ['@' + qb_, rng.choice(['opd', 'amplitude']), '@' + bad_], t={'assignment_may_be_refused': True}, tag='x')
                 if j == 0 and not spread and combo == 'all' and (rng.random() < 0.15 or force.get('rescaled')):
                     # the plane a caller gets back from rescale / resample is a plane like any other (its sampling is its own)
                     if rng.random() < 0.5:
@@ -1057,6 +1101,8 @@ class TiltHooks(Hooks):
         if not fn.startswith('check.'):
             if tag.get('fft_attempt'):
                 it.probe('fft_attempt_before_dft')
+            if getattr(self, 'pre_plane', None) is not None:
+                it.probe('inplace_fit_on_unwritable_opd')       # (a plane that keeps a private copy of its arrays simply carries it out)
             if getattr(self, 'pre_plane', None) is not None and not out.ok:
                 # a fit that cannot be carried out (the OPD cannot be written) leaves OPD and recorded tilt as they were
                 it.probe('refused_inplace_fit')
@@ -1164,7 +1210,7 @@ class TiltScenario(OpticsBase):
                 'carrier:wavefront-tilt', 'carrier:fit', 'carrier:refit', 'carrier:dispersive', 'carrier:wavefront-tilt+fit',
                 'carrier:tilt-planes-before-pupil', 'carrier:fan-out', 'carrier:same-wavefront-resampled', 'carrier:same-tilt-twice',
                 'trace_order:1/1', 'carrier:fit-inplace', 'noncontiguous_opd', 'carrier:dispersive-high-order', 'trace_negative_arc',
-                'trace_negative_arc_high_order', 'dispersive_blue', 'dispersive_red', 'pupil_per_axis_pixels', 'output_mask', 'fit:fit-rescale-refit', 'segment_off_detector', 'trace_after_update', 'fit:fit-update-refit', 'fft_attempt_before_dft', 'refused_inplace_fit']
+                'trace_negative_arc_high_order', 'dispersive_blue', 'dispersive_red', 'pupil_per_axis_pixels', 'output_mask', 'fit:fit-rescale-refit', 'segment_off_detector', 'trace_after_update', 'fit:fit-update-refit', 'fft_attempt_before_dft', 'inplace_fit_on_unwritable_opd']
     probe_names = must_hit + ['coldwarm_audit', 'no_common_samples', 'trace_order:2/1', 'trace_order:1/2', 'trace_order:2/2', 'trace_order:3/1']
 
     def program(self, rng, world, force=None):
@@ -1274,6 +1320,16 @@ class TiltScenario(OpticsBase):
             order2 = order[::-1]
             wpre2, ib2 = image(pb, extra=[tids[j] for j in order2])
             b.E('check.equiv', ['@' + ib2, '@' + ib, '@' + wpre2, '@' + wpre], t=dict(base_t, carrier='tilt-planes-reordered', permuted=True), tag='c')
+        # ---- a steering element: one Tilt object used at some angle, then re-pointed by its owner (public x / y) to the wanted one
+        if rng.random() < 0.3 or force:
+            tsteer = b.E('Tilt', None, {'x': -1.7 * gx + 1e-6, 'y': 0.6 * gy - 2e-6}, tag='t')
+            image(pb, extra=[tsteer])                                        # (first use, at the old angles: not judged)
+            # (the attribute `x` is the tilt about the x axis, which is the constructor's `y`, and vice versa: documented in the class)
+            b.E('setattr', ['@' + tsteer, 'x', gy], tag='x')
+            b.E('setattr', ['@' + tsteer, 'y', gx], tag='x')
+            wst_pre, ist = image(pb, extra=[tsteer])
+            b.E('check.equiv', ['@' + ist, '@' + ie, '@' + wst_pre, '@' + we_pre], t=dict(base_t, carrier='tilt-plane-repointed'), tag='c')
+            b.E('check.shift', ['@' + wst_pre, [['tilt', gx, gy]], z, du, os_], t={'n_elements': 1, 'square': square, 'kinds': 'tilt-repointed'}, tag='c')
         # ---- history: the SAME pre-propagation wavefront object imaged a second time onto a differently sampled plane
         if rng.random() < 0.5 or force:
             du2 = [ph['du0'] * rng.choice([0.8, 1.25]), ph['du0'] * rng.choice([1.0, 1.6, 0.625])]
